@@ -4472,8 +4472,9 @@ class ParseCtx:
                     continue
             raise UndefinedReferenceError(None, from_tree)
 
-        # check if in bound argument stack
-        for entry in reversed(self.bound_argument_stack):
+        # check if it is an argument of the macro being expanded. Only the innermost frame counts: the body of a macro can refer to
+        # its own arguments and to global names, not to the arguments of whichever macro happens to call it.
+        for entry in self.bound_argument_stack[-1:]:
             if (context, name) in entry:
                 return entry[(context, name)]
         # otherwise, try and find globally 
